@@ -537,6 +537,9 @@ def rule_mapping_fallback(repo: Repo, rep: Report, rule: str = "R14.8") -> None:
         # the per-variant value list: the local iterated to fill the collected values, initialised in the variant loop
         cfg = CFG(fn.node)
         cands = [lp.iter.id for lp in own_nodes(fn.node) if isinstance(lp, ast.For) and isinstance(lp.iter, ast.Name) and len(L.defs.get(lp.iter.id, [])) >= 2]
+        # ... also when the filling loop is written as `collected.extend(f(v) for v in <values>)` / a comprehension
+        cands += [g.iter.id for x in own_nodes(fn.node) if isinstance(x, (ast.GeneratorExp, ast.ListComp, ast.SetComp)) for g in x.generators
+                  if isinstance(g.iter, ast.Name) and len(L.defs.get(g.iter.id, [])) >= 2]
         for r in sorted(set(cands)):
             inits = [n for n in cfg.nodes if n.kind == "stmt" and not n.copy and isinstance(n.ast, (ast.Assign, ast.AnnAssign)) and n.ast.value is not None
                      and isinstance(n.ast.value, ast.Constant) and n.ast.value.value is None
